@@ -11,3 +11,22 @@ Lemma tie_terrapin_markers : [marker_c; marker_s] = src_pp_markers.
 Proof. reflexivity. Qed.
 Lemma tie_advisory : advisory_prefix = src_advisory_prefix /\ advisory_suffix = src_advisory_suffix.
 Proof. split; reflexivity. Qed.
+
+(* the name tests and the direction selection of post_process_findings(), translated from the current source (T1c): each of the three
+   _get_*_enabled helpers filters ONE list with ONE test; the model's predicates and list selection are those, for every name and every peer *)
+Lemma mem2 (n a b : string) : mem n [a; b] = String.eqb n a || String.eqb n b.
+Proof. cbn [mem]. destruct (String.eqb n a); [reflexivity|]. destruct (String.eqb n b); reflexivity. Qed.
+Lemma tie_is_chacha : forall n, is_chacha n = src_is_chacha_ciphers n /\ is_chacha n = src_is_chacha_ciphers_db n.
+Proof. intros n. split; reflexivity. Qed.
+Lemma tie_is_cbc : forall n, is_cbc n = src_is_cbc_ciphers n /\ is_cbc n = src_is_cbc_ciphers_db n.
+Proof.
+  intros n. unfold is_cbc, src_is_cbc_ciphers, src_is_cbc_ciphers_db. rewrite mem2.
+  split; rewrite <- !orb_assoc; reflexivity.
+Qed.
+Lemma tie_is_etm : forall n, is_etm n = src_is_etm_macs n /\ is_etm n = src_is_etm_macs_db n.
+Proof. intros n. split; reflexivity. Qed.
+Lemma tie_directions : forall ca k,
+  tp_ciphers ca k = src_chacha_ciphers_list ca (kl_enc_c k) (kl_enc k) (kl_mac_c k) (kl_mac k) /\
+  tp_ciphers ca k = src_cbc_ciphers_list ca (kl_enc_c k) (kl_enc k) (kl_mac_c k) (kl_mac k) /\
+  tp_macs ca k = src_etm_macs_list ca (kl_enc_c k) (kl_enc k) (kl_mac_c k) (kl_mac k).
+Proof. intros ca k. repeat split; reflexivity. Qed.
